@@ -63,7 +63,15 @@ func (c c12Replay) run(viol func(sig, detail string)) {
 }
 
 type c12Dag struct {
-	c       c05Case
+	// sized: every interior node records the size of each child (BlockSizes for
+	// dag-pb children, Tsize for raw leaves), so the reader can position itself
+	// without opening children. Without that a reader has to open later
+	// children early, and "the bytes preceding the span" becomes "a correct
+	// prefix no longer than that".
+	sized   bool
+	// optionalFail: positions of withheld empty-span blocks (per static run)
+	optionalFail []int64
+	c            c05Case
 	s       *store.Store
 	root    cid.Cid
 	tree    *model.FileNode  // files
@@ -76,8 +84,8 @@ func c12Build(c c05Case) (*c12Dag, error) {
 	d := &c12Dag{c: c}
 	var err error
 	switch c.Kind {
-	case "file":
-		d.s, d.root, _, err = c.File.build()
+	case "file", "hand":
+		d.s, d.root, err = c.buildFile()
 		if err != nil {
 			return nil, err
 		}
@@ -87,6 +95,12 @@ func c12Build(c c05Case) (*c12Dag, error) {
 		}
 		d.content = d.tree.Content()
 		d.blocks = store.FirstReads(d.tree.DFS()[1:])
+		d.sized = true
+		if c.Kind == "hand" {
+			if spec, ok := gen.HandByLabel(c.Hand); ok && spec.BlockSizes != "all" {
+				d.sized = false
+			}
+		}
 	case "shard":
 		d.s = store.New()
 		es := gen.Leaves(d.s, c.Names)
@@ -137,6 +151,15 @@ func (d *c12Dag) seqRead(n datamodel.Node, buf int, firstFail int64, what string
 		got, err = readAllBuf(rs, buf, 8*len(d.content)+64)
 	}
 	mode := fmt.Sprintf("buf=%d", buf)
+	// a withheld block with an empty byte span: the reader may open it when it
+	// gets to its position (then the load error after exactly the preceding
+	// bytes is right) or never need it; both are fine
+	for _, p := range d.optionalFail {
+		if (firstFail < 0 || p <= firstFail) && err != nil && err != io.EOF && store.IsInjected(err) &&
+			(int64(len(got)) == p || (!d.sized && int64(len(got)) < p)) && bytes.Equal(got, d.content[:len(got)]) {
+			return
+		}
+	}
 	if firstFail < 0 {
 		if err != nil || !bytes.Equal(got, d.content) {
 			viol("read-without-fault", fmt.Sprintf("%s %s %s: err=%v got %d bytes want %d", d.c, what, mode, err, len(got), len(d.content)))
@@ -154,8 +177,11 @@ func (d *c12Dag) seqRead(n datamodel.Node, buf int, firstFail int64, what string
 	if !store.IsInjected(err) {
 		viol("missing-block-wrong-error "+mode, fmt.Sprintf("%s %s: error %q does not carry the load error", d.c, what, err))
 	}
-	if !bytes.Equal(got, d.content[:firstFail]) {
+	if d.sized && !bytes.Equal(got, d.content[:firstFail]) {
 		viol("missing-block-prefix "+mode, fmt.Sprintf("%s %s: got %d bytes %s before the error, want exactly the %d bytes preceding the missing block's span", d.c, what, len(got), clip(got, 12), firstFail))
+	}
+	if !d.sized && (int64(len(got)) > firstFail || !bytes.Equal(got, d.content[:len(got)])) {
+		viol("missing-block-prefix-unsized "+mode, fmt.Sprintf("%s %s: got %d bytes %s before the error; not a correct prefix of at most %d bytes", d.c, what, len(got), clip(got, 12), firstFail))
 	}
 }
 
@@ -184,6 +210,7 @@ func (d *c12Dag) static(miss map[string]bool, kind store.ErrKind, viol func(sig,
 	}
 	if d.tree != nil {
 		first := d.tree.FirstSpanOf(miss)
+		d.optionalFail = d.tree.EmptyStarts(miss)
 		if _, ok := n.(datamodel.LargeBytesNode); !ok {
 			return
 		}
@@ -388,9 +415,8 @@ func (d *c12Dag) transient(x *xplore.Ctx, viol func(sig, detail string)) string 
 			nn, err := rs.Read(buf)
 			got = append(got, buf[:nn]...)
 			if err == io.EOF {
-				if len(failedAt) > 0 && errsSeen == 0 {
-					viol("transient-fault-swallowed", fmt.Sprintf("%s: loads %v failed but the read reported no error", d.c, failedAt))
-				}
+				// a failed load that the reader recovered from by loading the
+				// block again is not observable: only the delivered bytes count
 				if !bytes.Equal(got, d.content) {
 					viol("transient-eof-truncated", fmt.Sprintf("%s: loads %v failed; EOF after %d of %d bytes", d.c, failedAt, len(got), len(d.content)))
 				}
@@ -402,7 +428,7 @@ func (d *c12Dag) transient(x *xplore.Ctx, viol func(sig, detail string)) string 
 					firstErrAt = len(got)
 					dfs := d.tree.Nodes()[1:]
 					k := failedAt[0]
-					if k < len(dfs) && int64(firstErrAt) != dfs[k].Start {
+					if d.sized && d.c.Kind == "file" && k < len(dfs) && int64(firstErrAt) != dfs[k].Start {
 						viol("transient-prefix", fmt.Sprintf("%s: load #%d (%s, span starts at %d) failed, %d bytes were returned before the error", d.c, k, short(dfs[k].Cid), dfs[k].Start, firstErrAt))
 					}
 				}
@@ -462,6 +488,11 @@ func runC12(r *core.Run) {
 	}
 	for _, f := range files {
 		cases = append(cases, c05Case{Kind: "file", File: f})
+	}
+	// legal encodings neither writer emits: dag-pb leaves, absent BlockSizes /
+	// FileSize, empty chunks in the middle
+	for _, h := range gen.HandFamily() {
+		cases = append(cases, c05Case{Kind: "hand", Hand: h.Label})
 	}
 	usize := 8
 	fanouts := []int{8, 16, 256}
